@@ -49,7 +49,7 @@ package fox
 //@   ensures write: old(len(*buf)) != 0 ==> *buf == old(*buf) && (*buf)[w] == c
 //@   ensures keep: old(len(*buf)) != 0 ==> forall i int :: 0 <= i && i < len(*buf) && i != w ==> (*buf)[i] == old((*buf)[i])
 
-//@ func CleanPath props C17
+//@ func CleanPath props C17 pure
 //@   ensures T2: canonical(result)
 //@   ensures E1: (len(result) > 1 && result[len(result)-1] == '/') <==> (len(result) > 1 && len(p) > 0 && (p[len(p)-1] == '/' || endsDot(p)))
 //@   loop 1: invariant shape: rooted(p, buf) && noEmpty(p, buf, w) && noDot(p, buf, w) && noDotDot(p, buf, w) && lastOK(p, buf, w)
